@@ -14,7 +14,7 @@ CHECKS = {
  "C01": dict(text="Proof (Coq, partial): dirtiness decision rules of the serial model (never built / failed / newer dependency => dirty) for every database and file-system state; over the whole dependency walk, a recorded dependency that failed, was never built or changed later than the target was last built/verified makes the target not clean wherever it stands in the list (C01_moved_on_dep_not_clean); witness history of finding F1 evaluated on the fixed model. " + SERIAL + PARTIAL,
     note=TB + " Assumptions A-STAMP, A-QUIESCENT; scripts restricted to the DSL; flat project directory.",
     technique="Coq proof of local decision rules on an executable model + model/implementation differential check over histories + from-scratch oracle", ref="5/C01"),
- "C02": dict(text="Proof (Coq, partial): never-built and failed targets run; checking dirtiness has no file effect; example: repeated build runs nothing, dropped dependency no longer triggers (vm_compute on the model). " + SERIAL + PARTIAL,
+ "C02": dict(text="Proof (Coq, partial): never-built and failed targets run; checking dirtiness has no file effect; example: repeated build runs nothing, dropped dependency no longer triggers (vm_compute on the model).  Completeness of the walk (Build/CleanProofs.v): on every quiet set of rows (not failed, built, stamp matches, ifcreate paths absent, dependencies inside the set, not newer, acyclic) the check answers CLEAN and writes nothing, for every database and file system." + SERIAL + PARTIAL,
     note=TB + " The reference simulation named by the property is the extracted Coq model itself.",
     technique="Coq proof of local decision rules + model/implementation differential check over histories", ref="5/C02"),
  "C03": dict(text="Proof (Coq, partial): redo-stamp with equal bytes leaves changed_runid alone and marks checked; with different bytes sets changed_runid to the current run; a newer dependency makes its consumer dirty; depth-2 cut-off/forwarding example on the model. " + SERIAL + PARTIAL,
@@ -52,7 +52,7 @@ CHECKS = {
     note=TB + " Existence tests and sh argument passing are the OS's.",
     technique="Coq proof (iterator = declarative spec) + model/implementation differential check",
     ref="5/C13"),
- "C14": dict(text="Proof (Coq, partial): over the whole dependency walk a target with a recorded redo-ifcreate edge to a path that exists now, or an edge to //ALWAYS, is never found clean by a run that has not dealt with it (C14_ifcreate_or_always_not_clean); redo-ifcreate of an existing path is an error and records nothing, of absent paths succeeds without touching files; //ALWAYS is always newer than any earlier run, and a newer dependency makes its consumer dirty; example: always runs once per run for two dependents, ifcreate target runs after the watched file appears and not before. " + SERIAL + PARTIAL,
+ "C14": dict(text="Proof (Coq, partial): over the whole dependency walk a target with a recorded redo-ifcreate edge to a path that exists now, or an edge to //ALWAYS, is never found clean by a run that has not dealt with it (C14_ifcreate_or_always_not_clean); redo-ifcreate of an existing path is an error and records nothing, of absent paths succeeds without touching files; //ALWAYS is always newer than any earlier run, and a newer dependency makes its consumer dirty; example: always runs once per run for two dependents, ifcreate target runs after the watched file appears and not before.  Completeness of the walk (Build/CleanProofs.v): on every quiet set of rows (not failed, built, stamp matches, ifcreate paths absent, dependencies inside the set, not newer, acyclic) the check answers CLEAN and writes nothing, for every database and file system." + SERIAL + PARTIAL,
     note=TB + " -j>1 clause rests on C07/C09.",
     technique="Coq proof of ifcreate/always rules + model/implementation differential check over create/delete histories", ref="5/C14"),
  "C15": dict(
@@ -63,7 +63,7 @@ CHECKS = {
  "C16": dict(text="Proof (Coq): in the SQLite WAL abstraction, transactions that begin IMMEDIATE or never write after a read never get SQLITE_BUSY, for any number of connections and any interleaving (C16_no_busy); the transaction sites regenerated from the CURRENT source by tools/anchors.py all obey the rule (C16_sites_ok, re-checked on every run), hence no command of the code can fail with a busy error (C16_code_no_busy); the rule is necessary (two-connection refutation, findings F10a/F16). Ties: the abstraction is compared with the real SQLite library on every interleaving of two transactions; Anchors.v is regenerated from the working tree. Oracle: stress runs of simultaneous commands beside a -j4 build (incl. first invocations on an empty project), looking for busy/locked errors, lost dependency records and integrity_check failures; when the proof obligation breaks the stress run is used to find a concrete failing command.",
     note=TB + " tools/anchors.py (translator and its per-site access-pattern table) is trusted; A-TIMEOUT.",
     technique="Coq proof over a WAL locking abstraction + obligation regenerated from the source on every run + differential test of the abstraction against SQLite", ref="5/C16"),
- "C17": dict(text="Proof (Coq): the three query commands change nothing but the run-id counter (files, rows, dependency records identical); targets and sources are disjoint; what is in neither list is a special name or a file missing on disk; the ood walk touches no file; redo-ood's dirtiness walk (set in memory) and the builder's (checked_runid in the database, rows judged on copies) return the same verdicts for any list of targets whenever both return, from any state at the start of a run (C17_ood_agrees_with_builder: simulation with a 'settled rows' invariant, Build/OodAgree.v) -- the lower-bound clause on the model. The bounds on redo-ood are also decided against the implementation (paired runs with and without queries, lower bound). " + SERIAL,
+ "C17": dict(text="Proof (Coq): the three query commands change nothing but the run-id counter (files, rows, dependency records identical); targets and sources are disjoint; what is in neither list is a special name or a file missing on disk; the ood walk touches no file; redo-ood's dirtiness walk (set in memory) and the builder's (checked_runid in the database, rows judged on copies) return the same verdicts for any list of targets whenever both return, from any state at the start of a run (C17_ood_agrees_with_builder: simulation with a 'settled rows' invariant, Build/OodAgree.v) -- the lower-bound clause on the model. The bounds on redo-ood are also decided against the implementation (paired runs with and without queries, lower bound).  Completeness of the walk (Build/CleanProofs.v): on every quiet set of rows (not failed, built, stamp matches, ifcreate paths absent, dependencies inside the set, not newer, acyclic) the check answers CLEAN and writes nothing, for every database and file system." + SERIAL,
     note=TB + " redo-ood's rolled-back write is modelled as discarded.",
     technique="Coq proof of read-only/partition facts and of the agreement of redo-ood's walk with the builder's (simulation) + model/implementation differential check with query commands at every point", ref="5/C17"),
  "C18": dict(text="Proof (Coq): (a) format/parse round trip for every well-formed record (text may contain '@@ ' or '@@REDO:'), soundness of parse, done-record round trip. Tie: exhaustive small strings + random + malformed stream, model vs redo::logs::Meta. Part (b): the follower's partial-line buffer is modelled (LogRec/Assemble.v) and proved to lose/duplicate nothing and to emit the same lines for every fragmentation of the log's bytes (C18_fragmentation_independent); the replay redo-log -r [-u] is modelled (LogRec/Catlog.v: recursion over nested logs, already-set, headers, resumed, done, unterminated last line, exit 24, panics) and proved, for every set of logs and every name resolution, to show each reached target's plain lines exactly once, in order, under a header naming that target (C18b_replay_lines_once, C18b_replay_attributed), and the follower to see the static model's lines (C18b_follow_equals_static); tie: the bytes printed by the real redo-log on the logs of random real builds equal the model's rendering (pid/time normalised), exit status included. The live (follow, lock-aware) output is decided on the implementation: numbered stderr lines (long, trailing blanks, unterminated, one line delivered in 3-5 fragments) at -j1..4 must appear once, in order, under their own target (PARTIAL for the live clause); findings F11, F52, F53 known.",
